@@ -339,3 +339,63 @@ func PathClass(diff string) string {
 	}
 	return out
 }
+
+
+// ByteRanges returns the address ranges [lo, hi) of the backing arrays (whole
+// capacity) of every byte slice reachable from the roots. Addresses are only
+// compared inside the process, never logged.
+func ByteRanges(roots ...any) [][2]uintptr {
+	var out [][2]uintptr
+	seen := map[seenKey]bool{}
+	var walk func(v reflect.Value)
+	walk = func(v reflect.Value) {
+		if !v.IsValid() {
+			return
+		}
+		switch v.Kind() {
+		case reflect.Interface:
+			if !v.IsNil() {
+				walk(v.Elem())
+			}
+		case reflect.Pointer:
+			if v.IsNil() {
+				return
+			}
+			k := seenKey{v.UnsafePointer(), v.Type()}
+			if seen[k] {
+				return
+			}
+			seen[k] = true
+			walk(v.Elem())
+		case reflect.Struct:
+			if v.Type() == tTimeT {
+				return
+			}
+			for i, n := 0, v.NumField(); i < n; i++ {
+				walk(v.Field(i))
+			}
+		case reflect.Slice:
+			if v.IsNil() || v.Cap() == 0 {
+				return
+			}
+			if v.Type().Elem().Kind() == reflect.Uint8 {
+				lo := uintptr(v.UnsafePointer())
+				out = append(out, [2]uintptr{lo, lo + uintptr(v.Cap())})
+				return
+			}
+			full := v.Slice3(0, v.Cap(), v.Cap())
+			for i := 0; i < full.Len(); i++ {
+				walk(full.Index(i))
+			}
+		case reflect.Array:
+			for i := 0; i < v.Len(); i++ {
+				walk(v.Index(i))
+			}
+		}
+	}
+	for _, r := range roots {
+		walk(reflect.ValueOf(r))
+	}
+	sort.Slice(out, func(i, j int) bool { return out[i][0] < out[j][0] })
+	return out
+}
